@@ -28,6 +28,7 @@ POOLS = {
     'while': ['while', 'WHILE'], 'case': ['case', 'CASE'],
     'endif': ['end if', 'END IF'], 'endloop': ['end loop', 'END LOOP'],
     'endwhile': ['end while', 'END WHILE'],
+    'go': ['GO', 'GO 2'],
 }
 
 _checked = {}
